@@ -442,3 +442,176 @@ def run_job(job, sizes_of, jid):
              "opt": job["opt"],
              "events": events}
     return trace, out, objects
+
+
+# ---------------------------------------------------------------------------
+# generator (C11): objects made by the real assembler, one primary relocation per job whose value is
+# steered (by filler inside the section or by the addresses of the layout) to a chosen displacement
+# (line, relocation type, control transfer?)
+ASM_TEMPLATES = {
+    "x86_64": [("jmp {L}", "rel32", True), ("call {L}", "rel32", True)]
+    + [("%s {L}" % m, "rel32", True) for m in ("jz", "jne", "jb", "jae", "jbe", "ja", "js", "jl", "jge", "jle", "jg")]
+    + [("jmpshort {L}", "jmp8", True), ("mov rsi, {L}", "abs64", False), ("mov rax, [{L}]", "abs32", False),
+       ("mov [{L}], rbx", "abs32", False), ("lea rcx, [{L}]", "abs32", False), ("dcd ={L}", "absaddr32", False),
+       ("dq ={L}", "absaddr64", False), ("dw {L}", "absaddr16", False)],
+    "riscv": [("jal x5, {L}", "b_imm20", True), ("j {L}", "b_imm20", True), ("lui x5, {L}", "abs32_imm20", False),
+              ("auipc x5, %pcrel_hi({L})", "rel_imm20", False), ("addi x5, x5, {L}", "abs32_imm12", False),
+              ("lw x5%pcrel_lo({L})(x5)", "rel_imm12", False), ("addi x5, {L}", "rel_imm12", False)]
+    + [("%s x5, x6, {L}" % m, "b_imm12", True) for m in ("beq", "bne", "blt", "bge", "bltu", "bgeu")]
+    + [("la x5, {L}", "rel_imm20", False), ("dcd ={L}", "absaddr32", False), ("dw {L}", "absaddr16", False)],
+    "arm": [("bl {L}", "imm24", True), ("b {L}", "imm24", True)]
+    + [("%s {L}" % m, "imm24", True) for m in ("beq", "bne", "blt", "bgt")]
+    + [("ldr r5, {L}", "ldr_imm12", False), ("adr r5, {L}", "adr_imm12", False), ("dcd ={L}", "absaddr32", False)],
+    "arm:thumb": [("ldr r5, {L}", "lit8", False), ("adr r5, {L}", "lit8", False), ("b {L}", "wrap_new11", True),
+                  ("bw {L}", "bl_imm11", True), ("bl {L}", "bl_imm11", True)]
+    + [("%s {L}" % m, "rel8", True) for m in ("beq", "bne", "blt", "bgt")]
+    + [("%s {L}" % m, "b_imm11_imm6", True) for m in ("beqw", "bnew", "bltw")]
+    + [("dcd ={L}", "absaddr32", False)],
+}
+# how the generator aims at boundaries (not the oracle): type -> (pc bias, bits of the signed displacement
+# incl. scale or None for absolute, scale)
+AIM = {"rel32": (0, 32, 1), "jmp8": (1, 8, 1), "b_imm12": (0, 13, 2), "b_imm20": (0, 21, 2), "imm24": (8, 26, 4),
+       "ldr_imm12": (8, 13, 1), "adr_imm12": (8, 13, 1), "lit8": (4, 11, 4), "wrap_new11": (4, 12, 2), "rel8": (4, 9, 2),
+       "bl_imm11": (4, 25, 2), "b_imm11_imm6": (4, 21, 2), "rel_imm20": (0, None, 1), "rel_imm12": (0, None, 1)}
+INSN_ALIGN = {"x86_64": 1, "riscv": 4, "arm": 4, "arm:thumb": 2}
+
+
+def _asm(text, arch):
+    from ppci.api import asm
+
+    return asm(io.StringIO(text), arch)
+
+
+def aim_displacements(rng, rtype):
+    """interesting displacements S + A - Base for a pc-relative type"""
+    bias, bits, s = AIM[rtype]
+    if bits is None:
+        return rng.choice([0, 4, -4, 0x7fc, 0x800, 0x804, -0x800, -0x804, 0xffc, 0x1000, 0x12344, -0x12344,
+                           0x7ff800, 0x800000, rng.randrange(-0x100000, 0x100000) & ~3])
+    bits = min(bits, 27)  # 32-bit fields: see the wide records of Reloc_Eval
+    lo, hi = -(1 << (bits - 1)), (1 << (bits - 1)) - s
+    pick = rng.random()
+    if pick < 0.5:
+        c = [lo, lo + s, hi, hi - s, 0, s, -s, 2 * s, lo // 2, hi // 2 // s * s]
+        # 18 / 22 bits: where the Thumb-2 J1/J2 bits start to matter
+        c += [1 << 18, -(1 << 18) - s, (1 << 18) - s, 1 << 19, 1 << 22, -(1 << 22) - s, (1 << 22) - s, 1 << 23]
+        d = rng.choice([x for x in c if lo <= x <= hi])
+    elif pick < 0.75:
+        d = rng.randrange(lo // s, hi // s + 1) * s
+        if rng.random() < 0.5:
+            d = rng.randrange(-300 // s, 300 // s) * s
+    elif pick < 0.93:
+        # does not fit: just outside, in the "unsigned" range, far outside
+        d = rng.choice([lo - s, hi + s, hi + 2 * s, (1 << bits) - s, (1 << bits), -(1 << bits), lo - 16 * s,
+                        (1 << (bits - 1)) + 0x40 * s])
+    else:
+        d = rng.randrange(lo // s, hi // s + 1) * s + rng.choice([1, s // 2 or 1])  # misaligned target
+    if rtype in ("ldr_imm12", "adr_imm12"):
+        d = rng.choice([0, 4, -4, 8, 0xff, 0x100, -0x100, 0x104, 0x3fc, 0x400, 0xff0, 0xffc, 0xfff, 0x1000, -0xfff,
+                        -0x1000, 0x1004, 0xff00, rng.randrange(-0x1100, 0x1100)])
+    if rtype == "lit8":
+        d = rng.choice([0, 4, 8, 1020, 1024, 1016, -4, 2, 6, 512, rng.randrange(0, 256) * 4])
+    return d
+
+
+def gen_reloc_job(rng, arch):
+    """one link job around one primary relocation of a random template of `arch`"""
+    line, rtype, ctl = rng.choice(ASM_TEMPLATES[arch])
+    ia = INSN_ALIGN[arch]
+    # learn size / relocation offset / addend of the instruction from the assembler itself
+    probe = _asm("section code\n%s\nL: db 0\n" % line.format(L="L"), arch)
+    psec = probe.get_section("code")
+    r0 = probe.relocations[0]
+    isize = len(psec.data) - 1
+    roff, addend = r0.offset, r0.addend
+    lead = rng.choice([0, 0, 4, 8, 12]) if ia > 1 else rng.choice([0, 0, 1, 3, 4, 7])
+    absolute = rtype not in AIM
+    pre = ["section code"] + (["ds %d" % lead] if lead else [])
+    lay = None
+    two_objects = rng.random() < 0.25
+    far = True
+    base_code = 0
+    if absolute:
+        # S itself is the value: place the target section at a chosen address
+        lim = {"absaddr16": 16, "absaddr32": 28, "abs32": 28, "abs64": 28, "absaddr64": 28, "abs32_imm20": 28,
+               "abs32_imm12": 28}[rtype]
+        S = rng.choice([0, 4, 0x7fc, 0x800, 0x804, 0xffc, 0x1000, 0x1800, 0xfff0, 0xfffc, 0x10000, 0x10004, 0x7ffff800,
+                        0x12345678 & ~3, rng.randrange(0, 1 << min(lim + 1, 28)) & ~3])
+        if rtype == "absaddr16" and rng.random() < 0.5:
+            S = rng.choice([0xfffc, 0xfffe, 0x10000, 0xff00, 0x8000, 0x7ffe, 0x10002])
+        S &= (1 << 30) - 1
+        q = S % 4
+        T = S - q
+        base_code = (T + 0x1000 + rng.choice([0, 0x100, 0x2350])) & ~0xf
+        d = S
+    else:
+        bias = AIM[rtype][0]
+        d = aim_displacements(rng, rtype)
+        far = abs(d) >= 0x200 or (rng.random() < 0.2 and abs(d) >= 0x40)
+        if far:
+            base_code = ((max(0, -d) + 0x1000 + rng.choice([0, 0x10, 0x230, 0x4000])) + 15) & ~0xf
+            P = base_code + lead + roff
+            base = P + bias if rtype != "lit8" else ((P + 4) & ~3)
+            S = base + d - addend
+            if S < 0:
+                return None
+            q = S % 4
+            T = S - q
+        else:
+            if d >= 0:  # label after the instruction
+                n = d - addend + roff + bias - isize
+                if rtype == "lit8":
+                    n = d - addend + (((lead + roff + 4) & ~3) - (lead + roff)) + roff - isize
+                mode = "fwd"
+            else:
+                n = -d + addend - roff - bias
+                if rtype == "lit8":
+                    return None
+                mode = "back"
+            if n < 0 or n > 400:
+                return None
+    extra = rng.random() < 0.5  # a second, always representable relocation in a data section
+    if far:
+        src = pre + [line.format(L="tgt")] + ["ds %d" % rng.choice([0, 4, 8])]
+        tsec = ["section t"] + (["ds %d" % q] if q else []) + ["tgt: dd 0x11223344"]
+        if extra:
+            tsec += ["section data", "dcd =tgt" if arch != "x86_64" else rng.choice(["dcd =tgt", "dq =tgt"])]
+        if two_objects:
+            texts = ["\n".join(["global tgt"] + src) + "\n", "\n".join(["global tgt"] + tsec) + "\n"]
+        else:
+            texts = ["\n".join(src + tsec) + "\n"]
+        mems = [{"name": "mc", "loc": base_code, "size": 0x100, "ins": [{"k": "section", "name": "code", "al": 0}]},
+                {"name": "mt", "loc": T, "size": 0x100, "ins": [{"k": "section", "name": "t", "al": 0}]}]
+        if extra:
+            mems.append({"name": "md", "loc": max(base_code, T) + 0x400, "size": 0x100,
+                         "ins": [{"k": "section", "name": "data", "al": 0}]})
+        if rng.random() < 0.5:
+            mems.reverse()
+        lay = {"on": True, "entry": "", "mems": mems}
+    else:
+        if mode == "fwd":
+            src = pre + [line.format(L="tgt")] + (["ds %d" % n] if n else []) + ["tgt: dd 0x11223344"]
+        else:
+            src = ["section code"] + (["ds %d" % lead] if lead else []) + ["tgt:"] + (["ds %d" % n] if n else []) + [
+                line.format(L="tgt"), "dd 0x55667788"]
+        if extra:
+            src += ["section data", "dcd =tgt"]
+        texts = ["\n".join(src) + "\n"]
+        base_code = rng.choice([0, 0x100, 0x8000, 0x10000])
+        mems = [{"name": "mc", "loc": base_code, "size": 0x400, "ins": [{"k": "section", "name": "code", "al": 0}]}]
+        if extra:
+            mems.append({"name": "md", "loc": base_code + 0x1000, "size": 0x100,
+                         "ins": [{"k": "section", "name": "data", "al": 0}]})
+        lay = {"on": True, "entry": "", "mems": mems} if rng.random() < 0.8 else NO_LAYOUT
+    try:
+        objects = [_asm(t, arch) for t in texts]
+    except Exception:  # the assembler refuses the text: not a link job
+        return None
+    ctlset = set()
+    if ctl:
+        for oi, o in enumerate(objects):
+            for ri, r in enumerate(o.relocations):
+                if r.reloc_type == rtype and r.section == "code":
+                    ctlset.add((oi, ri))
+    return {"arch": arch, "objects": objects, "lay": lay, "opt": {"partial": False, "entry": "", "extra": []},
+            "via_text": False, "ctl": ctlset, "aim": {"type": rtype, "d": d, "line": line, "far": far}, "texts": texts}
